@@ -369,6 +369,9 @@ def run_property(pid: str, tier: str = "quick", seed: int = 0) -> int:
         rp = run_replay(pid, {"obligation": "__bounded__", "path": [], "model": {}, "info": {}, "seed": seed, "deep": tier == "thorough"}, timeout=1500)
         ev["coverage"]["scenario_bank"] = {"label": "bounded (never counted as proved)", "confirmed": bool(rp.get("confirmed")), "tried": rp.get("tried"),
                                            "reason": rp.get("reason"), "wall_s": round(time.time() - t1, 1)}
+        if not rp.get("confirmed") and rp.get("reason") in ("replay driver produced no result", "replay timeout"):
+            # the cross-check did not run to its end: that is a broken checker, not a verdict
+            return finish(3, f"the scenario bank of {pid} did not complete ({rp.get('reason')}): {str(rp.get('stderr', ''))[-400:]}")
         if rp.get("confirmed"):
             rpath = REPLAYS / f"{pid}_scenario_bank.json"
             rpath.write_text(json.dumps({"obligation": f"{pid}/scenario-bank", "replay": rp}, indent=1, default=str))
